@@ -79,6 +79,28 @@ def allowed_change(before, after, dialect):
     return True, conv
 
 
+_INTERFERENCE = {}
+
+
+def interfere(pvl, dialect):
+    col = pvl.collections
+    if "m" not in _INTERFERENCE:
+        m = col.PVLModule()
+        m.append("seq", ["word-%d and more" % i for i in range(30)] + [1.5, -2])
+        m.append("text", "a long text string " * 12)
+        m.append("q", col.Quantity(3, "m / s"))
+        m.append("grp", col.PVLGroup([("inner", ["x y"] * 20)]))
+        m.append("obj", col.PVLObject([("k", 1)]))
+        _INTERFERENCE["m"] = m
+    for other in DIALECTS:
+        if other == dialect:
+            continue
+        try:
+            make_encoder(pvl, other, {"width": 40}).encode(_INTERFERENCE["m"])
+        except Exception:
+            pass
+
+
 def one(rec, pvl, dialect, cfg, module, wit, via):
     s0 = snapshot(module)
     texts = []
@@ -89,6 +111,11 @@ def one(rec, pvl, dialect, cfg, module, wit, via):
         return
     snaps = [s0]
     for call in range(3):
+        if call == 1:
+            # between the first and the second dump the process does other
+            # work: long labels are written in the OTHER dialects (state shared
+            # between classes must not change what this dump returns)
+            interfere(pvl, dialect)
         try:
             if via == "dumps" and call >= 1:
                 t = pvl.dumps(module, encoder=make_encoder(pvl, dialect, cfg))
@@ -154,6 +181,71 @@ def case(rec, pvl, dialect, key):
              sample=wit if rec.c["evaluations"] % 997 == 0 else None)
 
 
+def build_case(pvl, dialect, key):
+    """A module that every encoder accepts and has to wrap: long text
+    strings, long sequences of words and quoted strings, quantities."""
+    rng = random.Random(key)
+    col = pvl.collections
+    cfg = gen_config(rng, dialect)
+    cfg["width"] = rng.choice((40, 60, 80))
+    words = ["alpha", "Beta", "GAMMA", "orbit", "Mars", "two-part", "x1"]
+    m = col.PVLModule()
+    m.append("TEXT", " ".join(rng.choice(words) for _ in range(rng.randint(12, 30))))
+    m.append("SEQ", [rng.choice(words) for _ in range(rng.randint(8, 20))])
+    m.append("STRINGS", [f"{rng.choice(words)} {rng.choice(words)}"
+                         for _ in range(rng.randint(4, 10))])
+    m.append("Q", col.Quantity(rng.randint(1, 9), "m / s"))
+    g = col.PVLObject()
+    g.append("NOTE", "it's " + " ".join(rng.choice(words) for _ in range(14)))
+    g.append("N", rng.randint(0, 99))
+    m.append("OBJ", g)
+    return cfg, m
+
+
+def texts_for(pvl, dialect, keys):
+    out = []
+    for key in keys:
+        cfg, module = build_case(pvl, dialect, key)
+        try:
+            out.append(make_encoder(pvl, dialect, cfg).encode(module))
+        except (ValueError, TypeError) as e:
+            out.append("refused:" + type(e).__name__)
+        except Exception as e:
+            out.append("raised:" + type(e).__name__)
+    return out
+
+
+def pristine_process_reference(rec, pvl, dialect, seed, tier):
+    """The same dumps in a process that has done nothing else and only ever
+    used this one dialect must give the same text as in this worker, which has
+    already written labels in all four dialects (state shared between classes
+    or kept at module level would show here)."""
+    import json
+    import subprocess
+    keys = [f"C13-ref-{seed}-{dialect}-{j}" for j in range(60 if tier == "quick" else 600)]
+    here = texts_for(pvl, dialect, keys)
+    code = ("import sys, json; sys.path.insert(0, %r); from vlib import common; "
+            "pvl = common.import_pvl(); from vlib.props import c13; "
+            "print(json.dumps(c13.texts_for(pvl, sys.argv[1], sys.argv[2:])))"
+            % common.VERIF)
+    try:
+        r = subprocess.run([common.PY, "-c", code, dialect] + keys, capture_output=True,
+                           text=True, timeout=900, cwd=common.VERIF)
+        there = json.loads(r.stdout)
+    except Exception as e:
+        rec.inconc(f"pristine reference process failed: {e!r}")
+        return
+    for key, a, b in zip(keys, here, there):
+        rec.count("pristine_reference_comparisons")
+        rec.case(("pristine", dialect, key), True)
+        if a != b:
+            rec.violation(CHECK, dialect, "dump-depends-on-process-history", {},
+                          {"dialect": dialect, "seed": key, "in_this_process": a[:600],
+                           "in_a_pristine_process": b[:600]},
+                          "same module, same encoder options, different text")
+            return
+
+
 def shard(i, n, tier, seed, rec, hb):
     pvl = common.import_pvl()
     per = 4000 if tier == "quick" else 800000
@@ -161,12 +253,15 @@ def shard(i, n, tier, seed, rec, hb):
         for j in range(i, per, n):
             hb.beat()
             case(rec, pvl, dialect, f"C13-{seed}-{dialect}-{j}")
+    if i < len(DIALECTS):
+        pristine_process_reference(rec, pvl, DIALECTS[i], seed, tier)
 
 
 def finish_kwargs(rec, tier):
     return dict(required_counters=("dump_pairs", "texts_compared",
                                    "in_place_group_to_object_conversions",
-                                   "shape[trigger]", "shape[plain-dict]"))
+                                   "shape[trigger]", "shape[plain-dict]",
+                                   "pristine_reference_comparisons"))
 
 
 def replay(data):
